@@ -106,6 +106,10 @@ def build():
                  env=GOENV, cwd=os.path.join(ROOT, "harness"), timeout=1500)
     if rc != 0:
         raise Inconclusive("harness does not build against /repo:\n" + out[-4000:])
+    rc, out = sh(["go", "build", "-tags", "verif", "-o", os.path.join(WORK, "bin/evdriver"), "./cmd/evdriver"],
+                 env=GOENV, cwd=os.path.join(ROOT, "harness"), timeout=1500)
+    if rc != 0:
+        raise Inconclusive("events driver does not build against /repo:\n" + out[-4000:])
     log("build: %.1fs" % (time.time() - t0))
 
 
@@ -117,10 +121,10 @@ def tlc_cmd(module_dir, module, cfg, meta, lib, extra=(), big=False, env_extra=N
     return cmd
 
 
-def run_tlc_trace(trace, meta):
+def run_tlc_trace(trace, meta, module="MCTrace"):
     """Validates one trace file; returns dict(viol=[...], cov={}, lines=int, ok=bool, out=str)."""
     os.makedirs(meta, exist_ok=True)
-    cmd = tlc_cmd(os.path.join(SPEC, "trace"), "MCTrace", "MCTrace.cfg", meta, os.path.join(SPEC, "lib/big"), ["-workers", "1"], big=True)
+    cmd = tlc_cmd(os.path.join(SPEC, "trace"), module, module + ".cfg", meta, os.path.join(SPEC, "lib/big"), ["-workers", "1"], big=True)
     env = dict(os.environ, TRACE=trace)
     try:
         rc, out = sh(cmd, timeout=3600, env=env, cwd=os.path.join(SPEC, "trace"))
@@ -373,6 +377,20 @@ def run_corpus(scenarios, tag, shards=None):
         i, p = item
         trace = os.path.join(rundir, "trace%d.ndjson" % i)
         stats = os.path.join(rundir, "stats%d.json" % i)
+        if tag == "events":
+            rc, out = sh([os.path.join(WORK, "bin/evdriver"), "-scenarios", p, "-out", trace, "-work", os.path.join(rundir, "db%d" % i)], timeout=3000)
+            if rc != 0:
+                return {"error": "events driver rc=%d: %s" % (rc, out[-1500:])}
+            r = run_tlc_trace(trace, os.path.join(rundir, "meta%d" % i), module="MCEvTrace")
+            r["trace"] = trace
+            classes, scs = {}, set()
+            for line in open(trace):
+                rec = json.loads(line)
+                scs.add(rec["sc"])
+                k = rec["kind"] + ("/" + rec["ev"]["t"] if rec.get("ev") else "") + ("/panic" if rec["panic"] else "")
+                classes[k] = classes.get(k, 0) + 1
+            r["classes"], r["samples"], r["stats"] = classes, [], {"scenarios": len(scs), "records": sum(classes.values())}
+            return r
         rc, out = sh([os.path.join(WORK, "bin/driver"), "-scenarios", p, "-out", trace, "-work", os.path.join(rundir, "db%d" % i), "-stats", stats], timeout=3000)
         if rc != 0:
             return {"error": "driver rc=%d: %s" % (rc, out[-1500:])}
